@@ -363,10 +363,16 @@ def structural_faults(rnd, gt, sp):
     for idx, (refkind, _c, _k, _m) in enumerate(sites[:40]):
         wrong = [k for k in ALL_KINDS if k not in REF_VALID[refkind]
                  and by.get(k)]
-        for choice in ["fresh"] + wrong[:2]:
+        # the ill-typed target is the first or the last node of its kind in
+        # file order (the last one is usually decoded *after* the site that
+        # names it, the first one before)
+        for choice, pos in [("fresh", 0)] + [
+                (k, pos) for k in rnd.sample(wrong, min(3, len(wrong)))
+                for pos in (0, -1)]:
             new = "%032x" % rnd.getrandbits(128) if choice == "fresh" \
-                else by[choice][0]
-            name = "reference:%s->%s" % (refkind, choice)
+                else by[choice][pos]
+            name = "reference:%s->%s%s" % (refkind, choice,
+                                           ":last" if pos else "")
             if any(n == name for n, _ in out):
                 continue
 
